@@ -47,171 +47,6 @@ def _affine(e: ast.expr, env: dict) -> tuple:
     return (txt, 0)
 
 
-def _conservation(run: Run, model: PyModel) -> None:
-    """lines[:S] + note + lines[E:]  with  E == S, or E == S + 1 and lines[S] shown blank on that path.
-    S and E are followed as affine forms (symbol + constant) through the paths of add_note with its helpers folded in."""
-    from ..flatten import flat_info
-
-    fi = flat_info(model, F_ADD)
-    fn = fi.node
-    concat = None
-    for n in walk_no_nested(fn):
-        if isinstance(n, ast.BinOp) and isinstance(n.op, ast.Add):
-            subs = [s for s in ast.walk(n) if isinstance(s, ast.Subscript) and isinstance(s.slice, ast.Slice)]
-            if len(subs) == 2 and all(base_name(s.value) == base_name(subs[0].value) for s in subs):
-                if concat is None or len(ast.unparse(n)) > len(ast.unparse(concat)):
-                    concat = n
-    slice_assign = None
-    if concat is None:
-        # in-place form: lines[S:E] = note_lines
-        for n in walk_no_nested(fn):
-            if isinstance(n, ast.Assign) and isinstance(n.targets[0], ast.Subscript) and isinstance(n.targets[0].slice, ast.Slice) and n.targets[0].slice.lower is not None and n.targets[0].slice.upper is not None:
-                slice_assign = n
-    if concat is None and slice_assign is None:
-        run.undecided("C10.R1", "add_note", "cannot find `lines[:s] + new + lines[e:]`")
-        return
-    if concat is not None:
-        subs = [s for s in ast.walk(concat) if isinstance(s, ast.Subscript) and isinstance(s.slice, ast.Slice)]
-        head = next((s for s in subs if s.slice.lower is None and s.slice.upper is not None), None)
-        tail = next((s for s in subs if s.slice.upper is None and s.slice.lower is not None), None)
-        if head is None or tail is None:
-            run.undecided("C10.R1", "add_note", "the two slices are not lines[:s] and lines[e:]")
-            return
-        lines, S_expr, E_expr, site = base_name(head.value), head.slice.upper, tail.slice.lower, concat
-    else:
-        t = slice_assign.targets[0]
-        lines, S_expr, E_expr, site = base_name(t.value), t.slice.lower, t.slice.upper, slice_assign
-    n_paths = 0
-    for p in enum_paths(fn, unroll=1):
-        ci = first_index(p, lambda n: n is site)
-        if ci < 0:
-            continue
-        n_paths += 1
-        env: dict[str, tuple] = {}
-        ver: dict[str, int] = {}
-        blank: set[tuple] = set()
-        line_of: dict[str, str] = {}  # loop element variable -> index variable of the same iteration
-
-        def fresh(nm: str) -> tuple:
-            ver[nm] = ver.get(nm, 0) + 1
-            return (f"{nm}#{ver[nm]}", 0)
-
-        for ev in p.events[:ci]:
-            if ev[0] == "iter":
-                t, it = ev[1].target, ev[1].iter
-                for nme in [x.id for x in ast.walk(t) if isinstance(x, ast.Name)]:
-                    env[nme] = fresh(nme)
-                line_of = {}
-                if isinstance(t, ast.Tuple) and len(t.elts) == 2 and isinstance(it, ast.Call) and ast.unparse(it.func) == "enumerate" and it.args and base_name(it.args[0]) == lines \
-                        and all(isinstance(x, ast.Name) for x in t.elts):
-                    line_of = {t.elts[1].id: t.elts[0].id}
-            elif ev[0] == "assume" and ev[2] is True:
-                e = ev[1]
-                if isinstance(e, ast.Compare) and len(e.ops) == 1 and isinstance(e.ops[0], ast.Eq) and isinstance(e.comparators[0], ast.Constant) and e.comparators[0].value == "":
-                    l = e.left
-                    if isinstance(l, ast.Call) and isinstance(l.func, ast.Attribute) and l.func.attr == "strip" and not l.args:
-                        tgt = l.func.value
-                        if isinstance(tgt, ast.Name) and tgt.id in line_of:
-                            blank.add(_affine(ast.Name(id=line_of[tgt.id], ctx=ast.Load()), env))
-                        if isinstance(tgt, ast.Subscript) and base_name(tgt.value) == lines and not isinstance(tgt.slice, ast.Slice):
-                            blank.add(_affine(tgt.slice, env))
-                elif isinstance(e, ast.UnaryOp) and isinstance(e.op, ast.Not) and isinstance(e.operand, ast.Call) and isinstance(e.operand.func, ast.Attribute) and e.operand.func.attr == "strip":
-                    tgt = e.operand.func.value  # `not line.strip()`
-                    if isinstance(tgt, ast.Name) and tgt.id in line_of:
-                        blank.add(_affine(ast.Name(id=line_of[tgt.id], ctx=ast.Load()), env))
-                    if isinstance(tgt, ast.Subscript) and base_name(tgt.value) == lines and not isinstance(tgt.slice, ast.Slice):
-                        blank.add(_affine(tgt.slice, env))
-            elif ev[0] == "stmt" and isinstance(ev[1], (ast.Assign, ast.AnnAssign)) and getattr(ev[1], "value", None) is not None:
-                st = ev[1]
-                tg = st.targets if isinstance(st, ast.Assign) else [st.target]
-                for t in tg:
-                    if isinstance(t, ast.Name):
-                        v = st.value
-                        if isinstance(v, (ast.Name, ast.BinOp)) or (isinstance(v, ast.Call) and ast.unparse(v.func) == "len"):
-                            form = _affine(v, env)
-                            # an expression that is its own symbol and mentions variables is re-versioned when those change; keep as text
-                            env[t.id] = form
-                        else:
-                            env[t.id] = fresh(t.id)
-                    elif isinstance(t, (ast.Tuple, ast.List)):
-                        for x in ast.walk(t):
-                            if isinstance(x, ast.Name):
-                                env[x.id] = fresh(x.id)
-            elif ev[0] == "stmt" and isinstance(ev[1], ast.AugAssign) and isinstance(ev[1].target, ast.Name):
-                env[ev[1].target.id] = fresh(ev[1].target.id)
-        S, E = _affine(S_expr, env), _affine(E_expr, env)
-        same = S[0] == E[0]
-        ok = same and (E[1] == S[1] or (E[1] == S[1] + 1 and S in blank))
-        if same and E[1] == S[1] + 1 and S not in blank:
-            msg = (f"on a path of add_note `{lines}[{ast.unparse(S_expr)}]` is dropped (the tail starts one line later) without having been shown to be blank: the destination loses that line "
-                   "(e.g. a page whose last line is a section header without trailing newline)")
-        else:
-            msg = f"on a path of add_note the relation between `{ast.unparse(S_expr)}` = {S} and `{ast.unparse(E_expr)}` = {E} is not `equal` or `one blank line apart`: lines of the destination may be lost or duplicated"
-        run.check("C10.R1", "the line replaced by the moved note is blank (or nothing is replaced)", ok, "FileManager.add_note", site, msg, file=FILE_M, node=site, detail=dict(path=p.describe(16)))
-    run.floor("paths through the insertion in add_note", n_paths, 2)
-    # the inserted lines are the note's own text
-    mid = [x for x in ast.walk(fn) if isinstance(x, ast.Call) and isinstance(x.func, ast.Attribute) and x.func.attr == "split"]
-    ok = any("to_string" in ast.unparse(m) and m.args and isinstance(m.args[0], ast.Constant) and m.args[0].value == "\n" for m in mid)
-    run.check("C10.R1", "the inserted lines are note.to_string() split on '\\n'", ok, "FileManager.add_note", site, "the inserted text is not note.to_string().split('\\n')", file=FILE_M, node=site)
-    for nm, f in (("add_note", fn), ("delete_note", flat_info(model, F_DEL).node)):
-        splits = [c for c in find_calls(f, "split") if "read_text" in ast.unparse(c)]
-        bad = [c for c in splits if not (c.args and isinstance(c.args[0], ast.Constant) and c.args[0].value == "\n")]
-        bad += find_calls(f, "splitlines")
-        joins = [c for c in find_calls(f, "join") if isinstance(c.func.value, ast.Constant)]
-        badj = [c for c in joins if c.func.value.value != "\n"]
-        run.check("C10.R1", f"{nm}: the page is split and joined on '\\n' only", not bad and not badj and bool(splits) and bool(joins), f"FileManager.{nm}",
-                  (bad + badj + [f])[0] if (bad or badj) else "split/join", "the page is not split/joined on exactly '\\n' (line numbers and other lines shift)", file=FILE_M, node=f)
-
-
-def _locator(run: Run, model: PyModel) -> None:
-    from ..flatten import flat_info
-
-    fi = flat_info(model, F_DEL)
-    fn = fi.node
-    cond = None
-    # the predicate under which the scan over the page's lines records the index of the current line
-    for loop in walk_no_nested(fn):
-        if not (isinstance(loop, ast.For) and isinstance(loop.target, ast.Tuple) and len(loop.target.elts) == 2 and isinstance(loop.target.elts[0], ast.Name)
-                and isinstance(loop.iter, ast.Call) and ast.unparse(loop.iter.func) == "enumerate"):
-            continue
-        idx = loop.target.elts[0].id
-        for n in ast.walk(loop):
-            if isinstance(n, ast.If) and any((isinstance(s, ast.Assign) and isinstance(s.value, ast.Name) and s.value.id == idx) or (isinstance(s, ast.Return) and isinstance(s.value, ast.Name) and s.value.id == idx)
-                                             for s in n.body):
-                cond = n.test
-    if cond is None:
-        run.undecided("C10.R2", "delete_note", "cannot find the predicate that locates the note's first line")
-        return
-    if isinstance(cond, ast.Compare) and isinstance(cond.ops[0], ast.In):
-        run.refuted("C10.R2", "FileManager.delete_note", cond, f"`{ast.unparse(cond)}` selects the first line that merely CONTAINS the ZID: when an earlier note mentions "
-                    "the ZID, that note is deleted and the moved note stays in the source page", file=FILE_M, node=cond)
-        return
-    if isinstance(cond, ast.Call):
-        tgt = model.callee(fi, cond)
-        if tgt in model.funcs:
-            h = model.funcs[tgt]
-            anchored = bool(find_calls(h.node, "startswith")) or any(isinstance(c, ast.Call) and ast.unparse(c.func) in ("re.match", "re.fullmatch") for c in ast.walk(h.node))
-            zparam = h.params()[-1].arg
-            eq = [c for c in ast.walk(h.node) if isinstance(c, ast.Compare) and isinstance(c.ops[0], ast.Eq) and zparam in names_loaded(c)]
-            contains = [c for c in ast.walk(h.node) if isinstance(c, ast.Compare) and isinstance(c.ops[0], ast.In) and zparam in names_loaded(c.left)]
-            run.check("C10.R2", "the locator anchors the ZID at the item's own-ZID position", anchored and bool(eq) and not contains, h.name, (contains or [cond])[0],
-                      f"{h.name} does not pin the ZID to the position right after the item prefix (anchored={anchored}, equality={bool(eq)}, substring tests={len(contains)})",
-                      file=h.file, node=h.node)
-            # the prefix tuple of the locator covers every kind
-            kinds = _note_type_values(model)
-            tup = [_lits(h, c.args[0]) for c in find_calls(h.node, "startswith") if c.args and _lits(h, c.args[0])]
-            if tup:
-                got = set(tup[0])
-                run.check("C10.R3", "locator prefixes == {kind + ' '}", got == {k + " " for k in kinds}, h.name, f"prefixes {sorted(got)}",
-                          f"{h.name} recognises the item prefixes {sorted(got)}, expected {sorted(k + ' ' for k in kinds)}", file=h.file, node=h.node)
-            # skips optional priority and modify date
-            pops = [c for c in find_calls(h.node, "pop")]
-            run.check("C10.R2", "the locator skips the optional priority and modify date", len(pops) >= 2 and any("is_short_date_spec" in ast.unparse(x) for x in ast.walk(h.node)), h.name,
-                      "optional prefix words", f"{h.name} does not skip both the optional priority and the optional YYMMDD modify date before comparing the ZID", file=h.file, node=h.node)
-            return
-    run.undecided("C10.R2", "delete_note", f"unrecognised locator predicate `{ast.unparse(cond)[:80]}`")
-
-
 def _tables(run: Run, model: PyModel) -> None:
     kinds = _note_type_values(model)
     from ..flatten import flat_info
@@ -403,10 +238,167 @@ def _hidden_anchor(run: Run, model: PyModel) -> None:
     run.undecided("C10.R5", "_add_hidden_metadata", "unrecognised way of splicing the metadata into the body")
 
 
+def _move_run(model: PyModel, files: dict, note: dict, target: str, done, template_text=None):
+    """One abstract run of _move_note over a virtual notes directory /Z holding `files` (name -> list of lines).  `note` = dict(zid, body, page, line_no, priority, status,
+    projects, areas).  -> [(status value, {path: text written}, imprecise notes, raised)]."""
+    from ..absint import Interp, Raised, State
+    from ..absval import HObj, Opaque
+    from ..virtual import World, vpath
+
+    W = World(model, files={}, old_map=None, indexed=set(), errors=set(), whitelist=[], contents={f"/Z/{k}": "\n".join(v) for k, v in files.items()}, missing="all-but-contents")
+    probes = W.probes()
+    base_m = probes["method:*"]
+    st = State()
+    I0 = Interp(model)
+    NT = {m.member: m for m in I0.B.enum_members(I0, model.cls("zorg.domain.types.NoteType"))}
+
+    def L(*xs):
+        return st.alloc(HObj("list", items=list(xs)))
+
+    payload = None if note.get("status") is None else st.alloc(HObj("obj", cls="zorg.domain.models._page.TodoPayload", fields=dict(priority=note.get("priority", "P2"), status=NT[note["status"]])))
+    nref = st.alloc(HObj("obj", cls="zorg.domain.models._page.Note", fields=dict(
+        body=note["body"], zid=note["zid"], projects=L(*note.get("projects", [])), areas=L(*note.get("areas", [])), contexts=L(), people=L(), properties=st.alloc(HObj("dict")), links=L(),
+        todo_payload=payload, create_date=None, modify_date=None, line_no=note["line_no"], file_path=vpath(note["page"]), block=None)))
+
+    def meth(I, recv, name, args, kwargs, s, node):
+        if recv.cls == "vrepo" and name == "get_note_by_zid":
+            return [(nref if args and args[0] == note["zid"] else None, s)]
+        return base_m(I, recv, name, args, kwargs, s, node)
+
+    def init_tmpl(I, args, kwargs, s, node):
+        pg = args[2] if len(args) > 2 else kwargs.get("new_path", kwargs.get("new_page"))
+        s.trace.append(("init_from_template", getattr(pg, "tag", pg)))
+        if template_text is not None and isinstance(pg, Opaque):
+            pth = pg.tag if pg.tag.startswith("/") else "/Z/" + pg.tag
+            s.meta["vfiles"] = {**s.meta.get("vfiles", {}), pth: template_text}
+        return [(None, s)]
+
+    probes["method:*"] = meth
+    mi = model.module_of("zorg.service.note_utils")
+    probes[model.resolve_dotted(mi.imports.get("init_from_template", "")) or "zorg.service.templates.init_from_template"] = init_tmpl
+    I = Interp(model, probes=probes, max_states=3000)
+    kwargs = dict(new_page=vpath(target), note_type=done, session=Opaque("vsession", ""), template_pattern_map=st.alloc(HObj("dict")), zid=note["zid"])
+    res = I.run_function(F_MOVE, [], kwargs, st=st)
+    out = []
+    for v, s in res:
+        out.append((v, dict(s.meta.get("vfiles", {})), list(s.imprecise), isinstance(v, Raised)))
+    return out
+
+
+def _nonblank(ls):
+    return [l for l in ls if l.strip()]
+
+
+def _added_once(new: list, old: list, note_lines: list):
+    """The note's rendering occurs exactly once, as one block that does not split another item from its continuation lines; removing it gives back the old
+    lines up to blank lines (at most one consumed, at most two added: the rendering's own final newline).  -> (ok, why)."""
+    ks = [i for i in range(len(new) - len(note_lines) + 1) if new[i:i + len(note_lines)] == note_lines]
+    if len(ks) != 1:
+        return False, ("the note's rendering is missing" if not ks else "the note's rendering occurs more than once")
+    k = ks[0]
+    rest = new[:k] + new[k + len(note_lines):]
+    if _nonblank(rest) != _nonblank(old):
+        return False, "other (non-blank) lines of the page change"
+    if not -1 <= len(rest) - len(old) <= 2:
+        return False, "more than one blank line is consumed / several are added"
+    after = new[k + len(note_lines)] if k + len(note_lines) < len(new) else ""
+    if after.strip() and after[:1] in " \t":
+        return False, "the note is inserted between another item and its continuation line"
+    return True, ""
+
+
+def move_scenarios(run: Run, model: PyModel) -> None:
+    """Abstract runs of _move_note end to end over a virtual notes directory (nothing touches a disk; a file the run writes is read back as written):
+    afterwards the source page is its old text minus exactly the note's own lines, the destination is its old text plus the note's rendering, once (at most one
+    blank line consumed, no other item split), inherited metadata the body does not spell out is part of the rendering, and the status is 0.
+    Layouts: another page / the same page / closing the todo / destination given without extension / created from its template; destinations that end in a blank
+    line, in an item, in a header without newline, that are empty, that have free text or a whitespace-only line after the last item; source notes on the first
+    line, on the last line without trailing newline, with priority and modify date in front of the ZID, mentioned by neighbours."""
+    fm = model.func(F_MOVE)
+    ZID = "240101#A2"
+    n = 0
+
+    def one(label, files, note, target, done, note_lines, template_text=None, rid_dst="C10.R1", rid_src="C10.R1"):
+        nonlocal n
+        try:
+            res = _move_run(model, files, note, target, done, template_text)
+        except Exception as e:  # noqa: BLE001
+            run.undecided("C10.R1", "_move_note", f"{label}: cannot interpret: {type(e).__name__}: {str(e)[:100]}")
+            return
+        src_name = note["page"]
+        dst_name = target if "." in target else target + ".zo"
+        src_old = files[src_name]
+        k0 = note["line_no"] - 1
+        cnt = len(note["body"].split("\n"))
+        src_rest = src_old[:k0] + src_old[k0 + cnt:]
+        for v, written, imprecise, raised in res:
+            n += 1
+            if raised or imprecise:
+                run.undecided("C10.R1", "_move_note", f"{label}: " + (f"raises {v.exc}" if raised else "; ".join(imprecise[:2])))
+                continue
+            run.check("C10.R4", f"move {label}: the status is 0", v == 0, "_move_note", f"{label}: returned {v!r}", f"a move ({label}) that finds its note and both pages returns {v!r}", file=FILE_U, node=fm.node)
+            got_src = written.get(f"/Z/{src_name}", "\n".join(src_old)).split("\n")
+            if dst_name == src_name:
+                ok_dst, why = _added_once(got_src, src_rest, note_lines)
+                ok_src, why_s = ok_dst, why
+                d_dst = d_src = f"the page becomes {got_src}"
+            else:
+                dst_old = files.get(dst_name, (template_text or "").split("\n"))
+                got_dst = written.get(f"/Z/{dst_name}", "\n".join(dst_old)).split("\n")
+                ok_dst, why = _added_once(got_dst, dst_old, note_lines)
+                ok_src, why_s = got_src == src_rest, "a different set of lines is removed / the note stays behind"
+                d_dst, d_src = f"the destination becomes {got_dst}", f"the source becomes {got_src}"
+            run.check(rid_dst, f"move {label}: the destination gains exactly the note's rendering, once, and keeps every other line", ok_dst, "_move_note", f"{label}: {d_dst}"[:300],
+                      f"after moving {note['zid']} ({label}), {d_dst}; expected its old lines plus {note_lines}: {why} -- the note is lost, truncated, duplicated or stripped of inherited metadata, "
+                      "or other lines of the destination change", file=FILE_U, node=fm.node)
+            run.check(rid_src, f"move {label}: the source loses exactly the note's own lines", ok_src, "_move_note", f"{label}: {d_src}"[:300],
+                      f"after moving {note['zid']} ({label}), {d_src}; expected {src_rest if dst_name != src_name else 'the old lines without the note, plus its rendering once'}: {why_s} "
+                      f"(neighbours that merely mention {note['zid']} must stay; a freshly added copy must not be lost)", file=FILE_U, node=fm.node)
+
+    # ---- the rich note: two lines, section tags, mentioned by its neighbours
+    src = ["# Source page", "################################ Section +home #chores", "", f"- 240101#A1 first note about {ZID}", f"o P1 {ZID} todo to move +home_office (see +own).", "  continued line mentioning 240101#A1",
+           f"- 240101#A3 mentions {ZID} in its text", ""]
+    dst = ["# Destination", "", "- 240101#B1 existing note", "  its second line", ""]
+    rich = dict(zid=ZID, body=f"{ZID} todo to move +home_office (see +own).\n  continued line mentioning 240101#A1", page="src.zo", line_no=5, priority="P1", status="OPEN_TODO",
+                projects=["home", "home_office", "own"], areas=["chores"])
+    tail = f"{ZID} +home #chores todo to move +home_office (see +own)."
+    for label, target, done, first in (("to another page", "dst.zo", None, "o P1 " + tail), ("to the bottom of its own page", "src.zo", None, "o P1 " + tail), ("to another page, closing the todo", "dst.zo", "x", "x " + tail),
+                                       ("to another page, cancelling the todo", "dst.zo", "~", "~ " + tail), ("to a page given without extension", "dst", None, "o P1 " + tail)):
+        one(label, {"src.zo": src, "dst.zo": dst}, rich, target, done, [first, "  continued line mentioning 240101#A1"])
+    one("to a page that does not exist yet (created from its template)", {"src.zo": src}, rich, "new.zo", None, ["o P1 " + tail, "  continued line mentioning 240101#A1"], template_text="# from the template\n\n")
+    # ---- destination layouts (a plain two-line note)
+    plain = dict(zid=ZID, body=f"{ZID} moved text\n  more", page="src.zo", line_no=2, status=None)
+    psrc = ["# S", f"- {ZID} moved text", "  more", "- 240101#A3 stays", ""]
+    for label, d in (("destination ends in a blank line", ["# D", "", "- 240101#B1 existing", ""]), ("destination ends in an item, no final newline", ["# D", "", "- 240101#B1 existing"]),
+                     ("destination ends in a header, no final newline", ["# D", "", "######## Section"]), ("destination is empty", [""]),
+                     ("destination has free text after its last item", ["- 240101#B1 existing", "", "free text paragraph", "second line of it", ""]),
+                     ("destination has a whitespace-only line after its last item", ["- 240101#B1 a", "", "######## S", "", "- 240101#B2 b", "  cont", "   ", "trailing text"])):
+        one(label, {"src.zo": psrc, "dst.zo": d}, plain, "dst.zo", None, [f"- {ZID} moved text", "  more"])
+    # ---- source layouts
+    d0 = ["# D", "", "- 240101#B1 existing", ""]
+    one("source note on the first line of its page", {"src.zo": [f"- {ZID} moved text", "  more", "- 240101#A3 stays", ""], "dst.zo": d0}, dict(plain, line_no=1), "dst.zo", None, [f"- {ZID} moved text", "  more"])
+    one("source note on the last line, no final newline", {"src.zo": ["# S", "- 240101#A1 stays", f"- {ZID} moved text", "  more"], "dst.zo": d0}, dict(plain, line_no=3), "dst.zo", None, [f"- {ZID} moved text", "  more"])
+    one("priority and modify date in front of the ZID, look-alike neighbours",
+        {"src.zo": ["# S", f"- 240101#A0 {ZID} is only mentioned here", f"o P2 240101#A9 240105 {ZID} mentioned after another ZID", f"o P2 240105 {ZID} the real one", f"- see {ZID}", ""], "dst.zo": d0},
+        dict(zid=ZID, body=f"240105 {ZID} the real one", page="src.zo", line_no=4, priority="P2", status="OPEN_TODO"), "dst.zo", None, [f"o P2 240105 {ZID} the real one"])
+    # ---- the locator: every kind of item is found at its own-ZID position; lines that merely mention the ZID (anywhere, after another ZID, in a continuation line,
+    #      as the prefix of a longer ZID) are never taken for it
+    kinds = {"BASIC": ("-", ""), "OPEN_TODO": ("o", " P2"), "CLOSED_TODO": ("x", ""), "CANCELED_TODO": ("~", ""), "BLOCKED_TODO": ("<", " P2"), "PARENT_TODO": (">", " P2")}
+    for status, (ch, prio) in kinds.items():
+        for md in ("", "240105 "):
+            first = f"{ch}{prio} {md}{ZID} the real one"
+            lines = ["# S", f"- 240101#A0 {ZID} is only mentioned here", f"  {ZID} opens a continuation line", f"- {ZID}b has a longer ZID", f"o P1 240101#A9 240105 {ZID} after another ZID", first, f"- see {ZID}", ""]
+            one(f"locating a {status} item{' with a modify date' if md else ''} among look-alikes", {"src.zo": lines, "dst.zo": d0},
+                dict(zid=ZID, body=f"{md}{ZID} the real one", page="src.zo", line_no=6, priority="P2", status=None if status == "BASIC" else status), "dst.zo", None, [first], rid_src="C10.R2")
+    one("line separators and form feeds above the note in both pages", {"src.zo": ["# S", "pasted\u2028text", "form\x0cfeed\rcr", f"- {ZID} moved text", "  more", "- 240101#A3 stays", ""],
+                                                                        "dst.zo": ["# D\u2028x", "\x0c", "- 240101#B1 existing", ""]}, dict(plain, line_no=4), "dst.zo", None, [f"- {ZID} moved text", "  more"])
+    run.floor("move scenarios", n, 28)
+
+
 def check(run: Run) -> None:
     model = PyModel(run.repo)
-    run.rule("C10.R1", "conservation: in lines[:s] + note + lines[e:] either e == s, or e == s+1 with lines[s] proven blank on that path; pages are split/joined on '\\n'")
-    run.rule("C10.R2", "anchored locator: the predicate choosing the source line pins the ZID to the own-ZID position (never substring containment)")
+    run.rule("C10.R1", "conservation, by abstract runs of _move_note end to end over virtual pages (16 layouts: same page, missing destination, destinations ending in blank / item / header / nothing, free text or whitespace-only lines after the last item, source note first / last / with priority and date, look-alike neighbours, U+2028 / form feed): the source loses exactly the note's lines, the destination gains its rendering once, every other line is kept")
+    run.rule("C10.R2", "anchored locator, by abstract runs of _move_note: an item of every kind (with and without priority / modify date) is found at its own-ZID position among lines that merely mention the ZID (in the text, after another ZID, in a continuation line, as the prefix of a longer ZID)")
     run.rule("C10.R3", "tables: item-prefix tuples == NoteType values + ' '; tag sigils of the hidden-metadata helpers agree with each other and with the grammar")
     run.rule("C10.R4", "order and errors: add before delete; failures give a non-zero status; both file operations write the page themselves on success; _to_done_note only changes the payload")
     run.rule("C10.R5", "inherited metadata is spliced in directly after the note's own ZID, and every path of _move_note passes the note through it before add_note")
@@ -416,8 +408,7 @@ def check(run: Run) -> None:
     sub = Run("C12", run.tier, run.repo)
     c12.check(sub)
     run.floor("adopted renderer obligations", run.adopt(sub, ("C12.R1", "C12.R2", "C12.R3"), "C10.R6"), 8)
-    _conservation(run, model)
-    _locator(run, model)
+    move_scenarios(run, model)
     _tables(run, model)
     _order_and_errors(run, model)
     run.units = dict(functions=[F_ADD, F_DEL, F_MOVE, F_DONE, F_HIDDEN, F_MUTATES])
